@@ -100,6 +100,8 @@ type Interp struct {
 	// pathFail and pathOK count the path-mode attempts per function in this
 	// query; a function that never got through is not tried again and again.
 	pathFail, pathOK map[*ssa.Function]int
+	// Marks is free for a rule's observers to record what they saw.
+	Marks map[string]bool
 	// NoPath disables path mode (diagnosis only).
 	NoPath bool
 }
@@ -419,6 +421,9 @@ func (in *Interp) RunOuter(fn *ssa.Function, args []Val, start *ssa.BasicBlock, 
 		if s, ok := in.lastTop.inS[start]; ok {
 			entry = s
 		}
+	}
+	if in.Marks != nil {
+		in.Marks = map[string]bool{} // marks describe one top-level run
 	}
 	t0, s0 := time.Now(), in.steps
 	out := in.run(fn, args, start, outer, entry, "")
